@@ -150,7 +150,7 @@ pub fn all() -> Vec<PropDef> {
         miri: None,
         id: "C12", level: "fault_enumeration", driver: "D2 deterministic executor + fault-injecting transport",
         scens: vec![s("faults", d2::c12, 150, 15_000), s("hostile_traffic", d2::c12_hostile, 60_000, 2_000_000)],
-        rule: "each run = one seeded scripted connection (1..2 requests, chunking, handler that propagates I/O errors) executed fault-free, then re-executed from the same choice list once per fault point: EOF at EVERY input byte offset 0..N, a read error at EVERY read-call index, a one-shot write error and a one-shot zero-length write at EVERY write-call index (stride > 1 only beyond 400 points per kind); evaluations counts outer scripts, faults_fired counts the inner runs; non-trivial = every run (each contains hundreds of fault points); hostile_traffic: the script's bytes passed through 1..3 structured mutations (version/type/length/padding/id flips, truncation, splices, huge name-value lengths, BeginRequest with wrong length / id 0 / unknown role) or replaced by random bytes, sent without gating and followed by end-of-file: the task must terminate without panic or spinning and its output must be complete well-formed server records",
+        rule: "each run = one seeded scripted connection (1..2 requests, chunking, handler that propagates I/O errors) executed fault-free, then re-executed from the same choice list once per fault point: EOF at EVERY input byte offset 0..N, a read error at EVERY read-call index, a one-shot write error and a one-shot zero-length write at EVERY write-call index (stride > 1 only beyond 250 points per kind); evaluations counts outer scripts, faults_fired counts the inner runs; non-trivial = every run (each contains hundreds of fault points); hostile_traffic: the script's bytes passed through 1..3 structured mutations (version/type/length/padding/id flips, truncation, splices, huge name-value lengths, BeginRequest with wrong length / id 0 / unknown role) or replaced by random bytes, sent without gating and followed by end-of-file: the task must terminate without panic or spinning and its output must be complete well-formed server records",
         assumptions: vec!["handlers propagate I/O errors (the statement's condition for the write clauses)"],
         real: REAL_ASYNC.to_vec(), stub: STUB_ASYNC.to_vec(),
     });
